@@ -86,8 +86,8 @@ def verdicts(progs, findings, stats):
                 stats["verdict_not_on_ast_node"] = stats.get("verdict_not_on_ast_node", 0) + 1
                 continue
             node = p["nodes"][fd["node"] - 1]
-            if fd["id"] == "compareValueOutOfTypeRangeError" and not (node["k"] == "bin" and node["op"] in CMP_OPS):
-                # this id is reported at the operand that carries the out-of-range value; the verdict is about the comparison
+            if fd["id"] in ("compareValueOutOfTypeRangeError", "comparisonError") and not (node["k"] == "bin" and node["op"] in CMP_OPS):
+                # these ids are reported at an operand (the out-of-range value / the & | expression); the verdict is about the comparison
                 par = [i for i, q in enumerate(p["nodes"], 1) if q["k"] == "bin" and q["op"] in CMP_OPS and fd["node"] in (q["a"], q["b"])]
                 if not par:
                     stats["verdict_operand_without_comparison"] = stats.get("verdict_operand_without_comparison", 0) + 1
